@@ -117,19 +117,52 @@ struct TreeFacts {
     closing_or: HashSet<u32>,
     /// byte ranges of USE items and MODIFIER_LIST nodes
     use_ranges: Vec<(u32, u32)>,
-    modifier_ranges: Vec<(u32, u32)>,
+    /// per MODIFIER_LIST (outside `use` items): the byte ranges of its MODIFIER nodes
+    modifier_lists: Vec<Vec<(u32, u32)>>,
+    /// offsets of `,` tokens that separate a block-like match arm from the next one
+    arm_commas: Vec<u32>,
     /// comment start offset -> (kind of the parent node)
     comment_parent: HashMap<u32, String>,
 }
 
-fn walk(node: &SyntaxNode, facts: &mut TreeFacts) {
+fn is_blocklike(kind: TokenKind) -> bool {
+    matches!(
+        kind,
+        TokenKind::BLOCK_EXPR | TokenKind::FOR_EXPR | TokenKind::IF_EXPR | TokenKind::MATCH_EXPR | TokenKind::WHILE_EXPR | TokenKind::LAMBDA_EXPR
+    )
+}
+
+fn walk(node: &SyntaxNode, facts: &mut TreeFacts, in_use: bool) {
     let kind = node.syntax_kind();
-    let span = node.full_span();
+    let span = node.span();
     if kind == TokenKind::USE {
         facts.use_ranges.push((span.start(), span.end()));
     }
-    if kind == TokenKind::MODIFIER_LIST {
-        facts.modifier_ranges.push((span.start(), span.end()));
+    let in_use = in_use || kind == TokenKind::USE;
+    if kind == TokenKind::MODIFIER_LIST && !in_use {
+        let mods = node
+            .children()
+            .filter(|n| n.syntax_kind() == TokenKind::MODIFIER)
+            .map(|n| (n.span().start(), n.span().end()))
+            .collect();
+        facts.modifier_lists.push(mods);
+    }
+    if kind == TokenKind::MATCH_EXPR {
+        let mut last_arm_blocklike = false;
+        for el in node.children_with_tokens() {
+            match el {
+                SyntaxElement::Node(n) if n.syntax_kind() == TokenKind::MATCH_ARM => {
+                    last_arm_blocklike = n.children().last().map(|v| is_blocklike(v.syntax_kind())).unwrap_or(false);
+                }
+                SyntaxElement::Token(t) if t.syntax_kind() == TokenKind::COMMA => {
+                    if last_arm_blocklike {
+                        facts.arm_commas.push(t.offset().value());
+                    }
+                    last_arm_blocklike = false;
+                }
+                _ => {}
+            }
+        }
     }
     let mut ors: Vec<u32> = Vec::new();
     let mut first_code: Option<TokenKind> = None;
@@ -153,7 +186,7 @@ fn walk(node: &SyntaxNode, facts: &mut TreeFacts) {
                 if first_code.is_none() {
                     first_code = Some(n.syntax_kind());
                 }
-                walk(&n, facts);
+                walk(&n, facts, in_use);
             }
         }
     }
@@ -169,7 +202,7 @@ fn parse_facts(text: &str) -> Result<(usize, TreeFacts), String> {
         let (file, errors) = Parser::from_shared_string(content).parse();
         let mut facts = TreeFacts::default();
         if errors.is_empty() {
-            walk(&file.root(), &mut facts);
+            walk(&file.root(), &mut facts, false);
         }
         (errors.len(), facts)
     })
@@ -197,6 +230,14 @@ fn index_ranges(lx: &Lexed, ranges: &[(u32, u32)]) -> Vec<[usize; 2]> {
         }
     }
     out
+}
+
+fn modifier_index_lists(lx: &Lexed, lists: &[Vec<(u32, u32)>]) -> Vec<Vec<[usize; 2]>> {
+    lists.iter().map(|l| index_ranges(lx, l)).collect()
+}
+
+fn offsets_to_indices(lx: &Lexed, offs: &[u32]) -> Vec<usize> {
+    offs.iter().filter_map(|o| lx.code.binary_search_by_key(o, |c| c.2).ok()).collect()
 }
 
 fn format_pipeline(text: &str, width: u32) -> Result<Result<String, usize>, String> {
@@ -265,7 +306,8 @@ fn run_one(id: usize, path: &str, text: &str, lx_in: &Lexed, in_facts: &TreeFact
                          "I": i_ids, "ci": ci, "O": [], "co": [], "pe": 0, "f2": 3, "ol": [], "o2l": []});
     let mut diag = json!({"id": id, "file": path, "w": width, "api": api_state, "api_msg": api_msg, "pipe_msg": pipe_msg,
                           "api_differs": api_differs,
-                          "iu": index_ranges(lx_in, &in_facts.use_ranges), "im": index_ranges(lx_in, &in_facts.modifier_ranges)});
+                          "iu": index_ranges(lx_in, &in_facts.use_ranges), "im": modifier_index_lists(lx_in, &in_facts.modifier_lists),
+                          "iac": offsets_to_indices(lx_in, &in_facts.arm_commas)});
     let mut out2_text = None;
     if let Some(o) = &out {
         let lx_out = lex_text(o);
@@ -281,7 +323,8 @@ fn run_one(id: usize, path: &str, text: &str, lx_in: &Lexed, in_facts: &TreeFact
         diag["parse_msg"] = json!(pmsg);
         if let Some(f) = &of {
             diag["ou"] = json!(index_ranges(&lx_out, &f.use_ranges));
-            diag["om"] = json!(index_ranges(&lx_out, &f.modifier_ranges));
+            diag["om"] = json!(modifier_index_lists(&lx_out, &f.modifier_lists));
+            diag["oac"] = json!(offsets_to_indices(&lx_out, &f.arm_commas));
         }
         if pe == 0 {
             // second formatting of the output, same width
